@@ -35,13 +35,28 @@ ResMism(e) ==
   \cup (IF e.res.k = "err" /\ out'.k = "err" /\ e.res.err \notin out'.kinds THEN {"result.errkind"} ELSE {})
   \cup (IF ~Counts(e) THEN {"occupancy"} ELSE {})
 
+\* the reassembly state itself, read from an IpDefragBuf that is fed the same fragments (sections(), end(), is_complete(), data().len())
+ShadowMism(e) ==
+  IF e.shadow.has # 1 THEN {} ELSE
+  LET h == e.shadow
+      known == e.s \in DOMAIN active'
+      secs == {<<h.secs[i][1], h.secs[i][2]>> : i \in 1..Len(h.secs)} IN
+  (IF (h.k = "ok") # (out'.k # "err") THEN {"buf.verdict:" \o h.k} ELSE IF h.k # "ok" /\ h.k \notin out'.kinds THEN {"buf.errkind"} ELSE {})
+  \cup (IF (h.complete = 1) # (out'.k = "ok") THEN {"buf.is_complete"} ELSE {})
+  \cup (IF known THEN (IF secs # active'[e.s].secs \/ Len(h.secs) # Cardinality(active'[e.s].secs) THEN {"buf.sections"} ELSE {})
+                       \cup (IF h.end # active'[e.s].end THEN {"buf.end"} ELSE {})
+                       \cup (IF h.dlen # active'[e.s].buf.len THEN {"buf.data_len"} ELSE {})
+        ELSE IF out'.k = "ok" THEN (IF secs # {<<0, Len(out'.cells)>>} \/ h.end # Len(out'.cells) THEN {"buf.sections"} ELSE {})
+        ELSE (IF h.secs # <<>> \/ h.end # -1 THEN {"buf.state_after_rejected_first_fragment"} ELSE {}))
+  \cup (IF h.proto # e.xproto THEN {"buf.ip_number"} ELSE {})
+
 Note(e, ms) == /\ bad' = IF ms = {} \/ ~sync THEN bad ELSE bad \cup {<<e.id, m>> : m \in ms}
                /\ sync' = (sync /\ ms = {})
 
 TDeliver ==
   /\ Consume /\ Ev.ev = "deliver"
   /\ Deliver(Ev.s, Frag(Ev.off, Ev.len, Ev.mf = 1))
-  /\ Note(Ev, ResMism(Ev) \cup (IF Inv' THEN {} ELSE {"SPEC.Inv"}))
+  /\ Note(Ev, ResMism(Ev) \cup ShadowMism(Ev) \cup (IF Inv' THEN {} ELSE {"SPEC.Inv"}))
 
 TPass ==
   /\ Consume /\ Ev.ev = "pass"
